@@ -129,6 +129,21 @@ def contract(draw):
                 return f"{desc}: [feature {f.key}] = ... changed position {p} outside the feature"
         if str(aseq.sequence) != text:
             return f"{desc}: assignment through a copy changed the original"
+    # features whose locations overlap or are nested (read only: an assignment to overlapping locations is not
+    # well defined): biological order = by the 5' end of each location on its strand
+    if n >= 8:
+        for strand in (Location.Strand.FORWARD, Location.Strand.REVERSE):
+            a0 = start + int(rng.integers(0, 2))
+            b0 = start + n - 1 - int(rng.integers(0, 2))
+            for locs in ([Location(a0, b0, strand), Location(a0 + 2, b0 - 2, strand)],                       # nested
+                         [Location(a0, a0 + 4, strand), Location(a0 + 2, b0, strand)],                      # overlapping
+                         [Location(a0 + 1, b0 - 1, strand), Location(a0, a0 + 2, strand), Location(b0 - 2, b0, strand)]):
+                f = Feature("nested", locs, {})
+                exp = feature_text(text, start, f)
+                got = str(aseq[f])
+                if got != exp:
+                    return (f"{desc}[feature with overlapping locations {[(l.first, l.last, l.strand.name) for l in locs]}] = {got!r}, "
+                            f"in biological order (5' ends) {exp!r}")
     # reverse complement
     rc = aseq.reverse_complement(sequence_start=start)
     if str(rc.sequence) != revcomp(text):
